@@ -275,6 +275,12 @@ def run(ctx):
     from . import c16
     c16.r162(ctx, repo['writer'], repo['util'])
     c16.r166(ctx, repo['util'])
+    c16.r161(ctx, repo['writer'])
+    from . import c14
+    c14.r145(ctx, 'R10.9')
+    # statistics values are binary fields: what is stored there is shared with C04
+    from . import c04
+    c04.r42(ctx, repo['writer'])
     from . import callsigs as _cs
     _cs.general_rules(ctx, 'R10', ['writer.write_common_metadata', 'writer.make_part_file', 'util.update_custom_metadata',
                                     'writer.update_file_custom_metadata', 'util.metadata_from_many', 'writer.make_metadata',
